@@ -30,6 +30,7 @@ struct Cfg {
     equilibrate: bool,
     presolve: bool,
     static_reg: bool,
+    dynamic_reg: bool,
     method: String,
     max_step_fraction: f64,
     backtrack: f64,
@@ -38,7 +39,7 @@ struct Cfg {
 }
 impl Cfg {
     fn default() -> Self {
-        Cfg { max_iter: 200, time_limit: f64::INFINITY, equilibrate: true, presolve: true, static_reg: true,
+        Cfg { max_iter: 200, time_limit: f64::INFINITY, equilibrate: true, presolve: true, static_reg: true, dynamic_reg: true,
               method: "qdldl".into(), max_step_fraction: 0.99, backtrack: 0.8, verbose: true, tight: 0.0 }
     }
     fn settings(&self) -> DefaultSettings<f64> {
@@ -54,6 +55,7 @@ impl Cfg {
             equilibrate_enable: self.equilibrate,
             presolve_enable: self.presolve,
             static_regularization_enable: self.static_reg,
+            dynamic_regularization_enable: self.dynamic_reg,
             direct_solve_method: self.method.clone(),
             max_step_fraction: self.max_step_fraction,
             linesearch_backtrack_step: self.backtrack,
@@ -67,6 +69,7 @@ impl Cfg {
         if let Some(x) = v.get("equilibrate").and_then(|x| x.as_bool()) { c.equilibrate = x; }
         if let Some(x) = v.get("presolve").and_then(|x| x.as_bool()) { c.presolve = x; }
         if let Some(x) = v.get("static_reg").and_then(|x| x.as_bool()) { c.static_reg = x; }
+        if let Some(x) = v.get("dynamic_reg").and_then(|x| x.as_bool()) { c.dynamic_reg = x; }
         if let Some(x) = v.get("method").and_then(|x| x.as_str()) { c.method = x.to_string(); }
         if let Some(x) = v.get("max_step_fraction").and_then(|x| x.as_f64()) { c.max_step_fraction = x; }
         if let Some(x) = v.get("backtrack").and_then(|x| x.as_f64()) { c.backtrack = x; }
@@ -75,7 +78,7 @@ impl Cfg {
     }
     fn json(&self) -> Value {
         json!({"max_iter": self.max_iter, "time_limit": if self.time_limit.is_finite() { json!(self.time_limit) } else { json!("inf") },
-               "equilibrate": self.equilibrate, "presolve": self.presolve, "static_reg": self.static_reg, "method": self.method,
+               "equilibrate": self.equilibrate, "presolve": self.presolve, "static_reg": self.static_reg, "dynamic_reg": self.dynamic_reg, "method": self.method,
                "max_step_fraction": self.max_step_fraction, "backtrack": self.backtrack, "verbose": self.verbose, "tight": self.tight})
     }
 }
@@ -508,6 +511,36 @@ fn main() {
             let p = planted(&mut rng, n, cones, pk);
             let mut c = Cfg::default();
             c.tight = *rng.pick(&[1e-12, 1e-13, 1e-14, 1e-16]);
+            probs.push((p, c));
+        }
+    }
+
+    // singular KKT systems with every regularisation switched off: duplicated equality rows make
+    // the very first factorisation fail, so the solve must end with a numerical error - and the
+    // iterate it started from must still have been shifted into the cones
+    if !replaying {
+        let nsing = if thorough { 40 } else { 10 };
+        for k in 0..nsing {
+            let n = 2 + rng.below(3);
+            let mut rows: Vec<Vec<f64>> = vec![];
+            let mut b: Vec<f64> = vec![];
+            let eq: Vec<f64> = (0..n).map(|_| rng.range(-3, 3) as f64).collect();
+            let eqb = rng.range(-2, 2) as f64;
+            rows.push(eq.clone()); b.push(eqb);
+            rows.push(eq.clone()); b.push(eqb);   // the same equality again
+            let mineq = 1 + rng.below(3);
+            for _ in 0..mineq { rows.push((0..n).map(|_| rng.range(-3, 3) as f64).collect()); b.push(1.0 + rng.below(3) as f64); }
+            let m = rows.len();
+            let mut A_rows = rows.clone();
+            if k % 2 == 1 { A_rows[1] = eq.iter().map(|v| 2.0 * v).collect(); b[1] = 2.0 * eqb; }
+            let pk = rng.below(2);
+            let Pd = if pk == 0 { CscMatrix::<f64>::zeros((n, n)) } else { CscMatrix::<f64>::identity(n) };
+            let p = Prob { P: Pd, q: (0..n).map(|_| rng.range(-2, 2) as f64).collect(), A: dense_rows_to_csc(&A_rows, m, n), b,
+                           cones: vec![ZeroConeT(2), NonnegativeConeT(m - 2)], label: format!("duplicated equality rows, no regularisation ({})", k), intent: 3 };
+            let mut c = Cfg::default();
+            c.static_reg = false;
+            c.dynamic_reg = false;
+            c.presolve = rng.chance(1, 2);
             probs.push((p, c));
         }
     }
